@@ -4,6 +4,7 @@
 package main
 
 import (
+	"encoding/hex"
 	"fmt"
 	"math"
 	"strconv"
@@ -49,11 +50,49 @@ func (h *hk) Equals(o hmap.LinkedKey) bool {
 
 // ---------------------------------------------------------------- canonical tokens
 
+// strTok: a Go string is a byte string.  `~` = ""; bytes [A-Za-z0-9_] as they are; anything else `%<hex>`.
 func strTok(s string) string {
 	if s == "" {
 		return "~"
 	}
-	return s
+	plain := s[0] != '%'
+	for i := 0; i < len(s) && plain; i++ {
+		c := s[i]
+		plain = (c >= '0' && c <= '9') || (c >= 'A' && c <= 'Z') || (c >= 'a' && c <= 'z') || c == '_'
+	}
+	if plain {
+		return s
+	}
+	return "%" + hex.EncodeToString([]byte(s))
+}
+
+// tokStr is the inverse of strTok.
+func tokStr(t string) string {
+	if t == "~" {
+		return ""
+	}
+	if strings.HasPrefix(t, "%") {
+		b, _ := hex.DecodeString(t[1:])
+		return string(b)
+	}
+	return t
+}
+
+// nilV stands for a nil interface value in an op (token `nil`).
+const nilV = math.MinInt64 + 7777
+
+func boxV(v int64) interface{} {
+	if v == nilV {
+		return nil
+	}
+	return V(v)
+}
+
+func valTok(v int64) string {
+	if v == nilV {
+		return "nil"
+	}
+	return strconv.FormatInt(v, 10)
 }
 
 // objVal renders an interface{} result of the interface-valued maps: a stored V → its number,
@@ -76,11 +115,12 @@ func objVal(x interface{}) string {
 	return fmt.Sprintf("?%T:%v", x, x)
 }
 
+// f32Tok: a float32 is shown as its IEEE-754 bit pattern (any NaN as `nan`: payloads are not compared).
 func f32Tok(f float32) string {
-	if f == float32(math.Trunc(float64(f))) && math.Abs(float64(f)) < 1e15 {
-		return strconv.FormatInt(int64(f), 10)
+	if f != f {
+		return "nan"
 	}
-	return fmt.Sprintf("f:%08x", math.Float32bits(f))
+	return strconv.FormatUint(uint64(math.Float32bits(f)), 10)
 }
 
 type pairS struct{ k, v string }
@@ -172,11 +212,11 @@ func (a *objAPI[K]) inst() *inst {
 			case "P":
 				switch o.mode {
 				case "L":
-					return objVal(a.put(k, V(o.v)))
+					return objVal(a.put(k, boxV(o.v)))
 				case "FL":
-					return objVal(a.putLast(k, V(o.v)))
+					return objVal(a.putLast(k, boxV(o.v)))
 				case "FF":
-					return objVal(a.putFirst(k, V(o.v)))
+					return objVal(a.putFirst(k, boxV(o.v)))
 				}
 			case "G":
 				return objVal(a.get(k))
@@ -727,7 +767,7 @@ func (a *numAPI[K, W]) inst() *inst {
 
 func w32(v int64) int32    { return int32(v) }
 func w64(v int64) int64    { return v }
-func wf32(v int64) float32 { return float32(v) }
+func wf32(v int64) float32 { return math.Float32frombits(uint32(v)) } // the op carries the bit pattern
 
 func newIntIntLinkedMap(c ctor) *inst {
 	m := hmap.NewIntIntLinkedMap()
